@@ -1,5 +1,5 @@
 import LexVerif.Props.C11
-import LexVerif.Proof.ParseNumberC11SepCfg
+import LexVerif.Proof.ParseNumberC11SepSpecial
 /-!
 # C11 (B) `partial_prefix` for formats WITH digit-separator flags on integer / fraction / exponent
 
@@ -14,8 +14,15 @@ import LexVerif.Proof.ParseNumberC11SepCfg
   (i, il, ic; ilc at the first exponent position) needs `mantissa_radix ≤ exponent_radix`.
 * `witness_sep_hex_i / _il / _ic`: the exclusion is exact for i, il, ic — decided counter-examples `1p1_a`
   (radix 16, exponent radix 10; the implementation agrees, finding C11/C13 "exponent digit test uses mantissa radix").
-* `partial_prefix_sep_model_number`: the same at the API level (`parse_partial_with_options` / `parse_with_options`),
-  `SepCfg` derived from the validation (`sepCfg_of_valid`).
+* `partial_prefix_sep_special`: special-value results (`nan`, `inf`, `infinity`, with or without
+  `special_digit_separator`) of the same class, when no byte matching the head of a special string (in either case) is
+  a mantissa digit, the decimal point (`SpecialHeadsOK`, necessary: `witness_B_radix24_nan`) or the separator
+  (`SpecialHeadsNoSep`). The special iterator is no-skip or skips every separator run: its parser commutes with EVERY cut
+  at or behind the match for EVERY format (`parsePositiveSpecial_prefix`), and the number parser fails on the cut buffer
+  for the same reason it failed on the whole one (it meets separators and then the head of the special string).
+* `partial_prefix_sep`: both kinds of result; `partial_prefix_sep_model`, `partial_prefix_sep_model_number`: the same at
+  the API level (`parse_partial_with_options` / `parse_with_options`), `SepCfg` derived from the validation
+  (`sepCfg_of_valid`).
 
 Why truncation at the returned count cannot change a skip decision before the count: `Proof/ParseNumberC11SepPeek.lean`.
 The count the partial parser returns may stand AFTER trailing separators that a `peek` skipped (`1__2__x` → 6 with
@@ -152,17 +159,133 @@ example : formatError featsRadixFormat fmtUniITC = none ∧ optionsError {} = no
     parseFloatModel featsRadixFormat fmtUniITC {} false f64 [49, 95, 95, 50, 46, 53, 95] = "ok 4029000000000000 -" := by
   decide +kernel
 
+/-! ## special-value results -/
+
+/-- the special-value parser commutes with the cut at its count — every format, feature set and build -/
+theorem parsePositiveSpecial_prefix (c : Cfg) (o : POpts) (b : Bytes) (sp : Special) (cnt : Nat)
+    (hv : C12.Bytes.Valid b) (hidx : b.index ≤ cnt) (h : parsePositiveSpecial c o b = .ok (some (sp, cnt))) :
+    cnt ≤ b.slc.length ∧ parsePositiveSpecial c o (trunc cnt b) = .ok (some (sp, cnt)) :=
+  parsePositiveSpecial_truncS o b sp cnt hv hidx h
+
+/-- **C11 (B), special-value results, formats with a separator byte** -/
+theorem partial_prefix_sep_special (c : Cfg) (o : POpts) (s : List Nat) (sp : Special) (neg : Bool) (cnt : Nat)
+    (H : SepCfg c o) (hm : c.requiredMantissaDigits = true) (hh : SpecialHeadsOK c o) (hhs : SpecialHeadsNoSep c o)
+    (h : parseFloatSyntax c o true s = .ok (.special sp neg cnt)) :
+    parseFloatSyntax c o false (s.take cnt) = .ok (.special sp neg cnt) :=
+  partial_prefix_sep_special_g H s true sp neg cnt hm hh hhs h
+
+/-- **C11 (B), formats with separator flags, every result** -/
+theorem partial_prefix_sep (c : Cfg) (o : POpts) (s : List Nat) (p : Parsed)
+    (H : SepCfg c o) (hm : c.requiredMantissaDigits = true) (hh : SpecialHeadsOK c o) (hhs : SpecialHeadsNoSep c o)
+    (h : parseFloatSyntax c o true s = .ok p) :
+    parseFloatSyntax c o false (s.take (pcount p)) = .ok p := by
+  cases p with
+  | number x cnt => exact partial_prefix_sep_number c o s x cnt H hm h
+  | special sp ng cnt => exact partial_prefix_sep_special c o s sp ng cnt H hm hh hhs h
+  | zero n =>
+    exfalso
+    rw [parseFloatSyntax_eq] at h
+    cases ha : afterSign c s with
+    | error e => rw [ha] at h; cases h
+    | ok pr =>
+      obtain ⟨neg, consumed, b⟩ := pr
+      rw [ha] at h
+      simp only at h
+      cases consumed with
+      | true =>
+        simp only [if_true, hm, Bool.or_true] at h
+        cases h
+      | false =>
+        simp only [Bool.false_eq_true, if_false] at h
+        unfold tail at h
+        simp only [if_true] at h
+        split at h
+        · cases h
+        · split at h <;> cases h
+        · cases h
+
+/-- `special_digit_separator` with I+L+T+C everywhere (`_` in numbers and in special values) -/
+def fmtUniILTCSpecial : Format := ⟨0xa0a0a000000005f00001fff0000000c⟩
+
+example : SepCfg ⟨featsRadixFormat, fmtUniILTCSpecial, false⟩ {} := by
+  apply sepCfg_of _ {} ⟨rfl, fun k => by cases k <;> decide +kernel⟩ <;> decide +kernel
+
+/-- `-_n_a__n__x` → (NaN, 9): sign, leading separator, separators inside and behind the match; the complete parser on
+the 9 bytes returns the same -/
+example : (⟨featsRadixFormat, fmtUniILTCSpecial, false⟩ : Cfg).specialSep = true ∧
+    formatError featsRadixFormat fmtUniILTCSpecial = none ∧
+    parseFloatSyntax ⟨featsRadixFormat, fmtUniILTCSpecial, false⟩ {} true [45, 95, 110, 95, 97, 95, 95, 110, 95, 120]
+      = .ok (.special .nan true 9) ∧
+    parseFloatSyntax ⟨featsRadixFormat, fmtUniILTCSpecial, false⟩ {} false [45, 95, 110, 95, 97, 95, 95, 110, 95]
+      = .ok (.special .nan true 9) := by decide +kernel
+
+/-- without `special_digit_separator` (`c13_dec_uni_itc`): `inf_x` → (inf, 3) -/
+example : parseFloatSyntax ⟨featsRadixFormat, fmtUniITC, false⟩ {} true [105, 110, 102, 95, 120] = .ok (.special .inf false 3) ∧
+    parseFloatSyntax ⟨featsRadixFormat, fmtUniITC, false⟩ {} false [105, 110, 102] = .ok (.special .inf false 3) := by
+  decide +kernel
+
+/-- **C11 (B) at the API level, separator formats, every result**: additionally mantissa radix ≤ 18, and neither the
+decimal point nor the separator is one of `I i N n` -/
+theorem partial_prefix_sep_model (feats : Features) (fmt : Format) (o : POpts) (f : Fmt) (s : List Nat) (q : Parsed)
+    (hfeat : feats.radix = true → feats.powerOfTwo = true) (hf : feats.format = true)
+    (hm : (⟨feats, fmt, false⟩ : Cfg).requiredMantissaDigits = true)
+    (h1 : optionsError o = none) (h2 : formatError feats fmt = none)
+    (h3 : isValidOptionsPunctuation feats fmt o.exp o.dp = true) (h4 : checkRadix feats fmt = true)
+    (hsep : fmt.digitSeparator ≠ 0) (hnp : fmt.basePrefix = 0)
+    (hexp : digitLookB ⟨feats, fmt, false⟩ .exponent = true → fmt.mantissaRadix ≤ fmt.exponentRadix)
+    (hexpc : matchByte o.exp ((⟨feats, fmt, false⟩ : Cfg).caseSensitiveExponent && feats.format)
+      (some fmt.digitSeparator) = false)
+    (hsuf : matchByte (⟨feats, fmt, false⟩ : Cfg).baseSuffix (⟨feats, fmt, false⟩ : Cfg).caseSensitiveBaseSuffix
+      (some fmt.digitSeparator) = false)
+    (hr18 : fmt.mantissaRadix ≤ 18) (hdp : o.dp ≠ 73 ∧ o.dp ≠ 105 ∧ o.dp ≠ 78 ∧ o.dp ≠ 110)
+    (hsl : fmt.digitSeparator ≠ 73 ∧ fmt.digitSeparator ≠ 105 ∧ fmt.digitSeparator ≠ 78 ∧ fmt.digitSeparator ≠ 110)
+    (h : parseFloatSyntax ⟨feats, fmt, false⟩ o true s = .ok q) :
+    parseFloatModel feats fmt o true f s = renderParsed ⟨feats, fmt, false⟩ f true q ∧
+    parseFloatModel feats fmt o false f (s.take (pcount q)) = renderParsed ⟨feats, fmt, false⟩ f false q := by
+  have H := sepCfg_of_valid feats fmt o hfeat hf h1 h2 h3 hsep hnp hexp hexpc hsuf
+  have hh : SpecialHeadsOK ⟨feats, fmt, false⟩ o := specialHeadsOK_of_valid _ _ h1 hr18 hdp
+  have hhs : SpecialHeadsNoSep ⟨feats, fmt, false⟩ o :=
+    specialHeadsNoSep_of_valid _ _ h1 (by simpa [Cfg.digitSeparator, hf] using hsl)
+  have hc := partial_prefix_sep ⟨feats, fmt, false⟩ o s q H hm hh hhs h
+  rw [parseFloatModel_of_valid feats fmt o true f s false h1 h2 h3 h4,
+    parseFloatModel_of_valid feats fmt o false f _ false h1 h2 h3 h4, h, hc]
+  exact ⟨rfl, rfl⟩
+
 /-! ## what is not proved -/
 
-/-- formats with a base prefix, and special-value results when the format has a separator byte: the statement
-without those restrictions (still with the radix condition, which is necessary) -/
+/-- the statement for every validated call with a `format` build: beyond validity only the two necessary exclusions
+(the radix condition — `witness_sep_hex_i`; special heads that are digits / the decimal point — `witness_B_radix24_nan`)
+and required mantissa digits (`witness_B_nodigits_sign`). Open: formats with a base prefix AND a separator byte;
+a separator that is the other ASCII case of the exponent or base-suffix character, or one of `I i N n` -/
 def partial_prefix_sep_full : Prop :=
   ∀ (feats : Features) (fmt : Format) (o : POpts) (s : List Nat) (p : Parsed),
-    feats.format = true → optionsError o = none → formatError feats fmt = none →
+    (feats.radix = true → feats.powerOfTwo = true) → feats.format = true →
+    optionsError o = none → formatError feats fmt = none →
     isValidOptionsPunctuation feats fmt o.exp o.dp = true → checkRadix feats fmt = true →
     (⟨feats, fmt, false⟩ : Cfg).requiredMantissaDigits = true →
     (digitLookB ⟨feats, fmt, false⟩ .exponent = true → fmt.mantissaRadix ≤ fmt.exponentRadix) →
+    SpecialHeadsOK ⟨feats, fmt, false⟩ o →
     parseFloatSyntax ⟨feats, fmt, false⟩ o true s = .ok p →
     parseFloatSyntax ⟨feats, fmt, false⟩ o false (s.take (pcount p)) = .ok p
+
+/-- proved part: a separator byte (without one: `partial_prefix_contiguous`), no base prefix, and a separator that does
+not collide (up to ASCII case) with the exponent character, the base suffix or the heads of the special strings -/
+theorem partial_prefix_sep_full_partial (feats : Features) (fmt : Format) (o : POpts) (s : List Nat) (p : Parsed)
+    (hfeat : feats.radix = true → feats.powerOfTwo = true) (hf : feats.format = true)
+    (h1 : optionsError o = none) (h2 : formatError feats fmt = none)
+    (h3 : isValidOptionsPunctuation feats fmt o.exp o.dp = true)
+    (hm : (⟨feats, fmt, false⟩ : Cfg).requiredMantissaDigits = true)
+    (hexp : digitLookB ⟨feats, fmt, false⟩ .exponent = true → fmt.mantissaRadix ≤ fmt.exponentRadix)
+    (hh : SpecialHeadsOK ⟨feats, fmt, false⟩ o)
+    (hsep : fmt.digitSeparator ≠ 0) (hnp : fmt.basePrefix = 0)
+    (hexpc : matchByte o.exp ((⟨feats, fmt, false⟩ : Cfg).caseSensitiveExponent && feats.format)
+      (some fmt.digitSeparator) = false)
+    (hsuf : matchByte (⟨feats, fmt, false⟩ : Cfg).baseSuffix (⟨feats, fmt, false⟩ : Cfg).caseSensitiveBaseSuffix
+      (some fmt.digitSeparator) = false)
+    (hsl : fmt.digitSeparator ≠ 73 ∧ fmt.digitSeparator ≠ 105 ∧ fmt.digitSeparator ≠ 78 ∧ fmt.digitSeparator ≠ 110)
+    (h : parseFloatSyntax ⟨feats, fmt, false⟩ o true s = .ok p) :
+    parseFloatSyntax ⟨feats, fmt, false⟩ o false (s.take (pcount p)) = .ok p :=
+  partial_prefix_sep _ o s p (sepCfg_of_valid feats fmt o hfeat hf h1 h2 h3 hsep hnp hexp hexpc hsuf) hm hh
+    (specialHeadsNoSep_of_valid _ _ h1 (by simpa [Cfg.digitSeparator, hf] using hsl)) h
 
 end LexVerif.Props.C11
